@@ -1491,13 +1491,31 @@ package snaps
 //@   ensures [filter] (forall i in 0..len(skippedTests.values): !desc(tn, skippedTests.values[i])) ==> r == !reMatch(runOnly, tn)
 //@   loop 1 invariant 0 <= $idx && (forall i in 0..$idx: !desc(testName, skippedTests.values[i])) && testName == tn
 //@
+// fileSkipSpec: the verdict of isFileSkipped as a function of its arguments (ASSUMED: the Go test files it parses do
+// not change while Clean runs; the body is checked only for the runOnly == "" clause)
+//@ specfun fileSkipSpec(dir Str, filename Str, runOnly Str) Bool
 //@ func isFileSkipped(dir, filename, runOnly) returns (r)
 //@   mode ctl
 //@   assigns alloc
 //@   ensures runOnly == "" ==> !r
+//@   ensures [assumed_function] r == fileSkipSpec(dir, filename, runOnly)
+
+// staleF: the directory entry e of directory d is a stale snapshot file: not a directory, `.snap` in its name, its path is
+// neither a key of the registry nor a registered standalone file, and it is not protected by the -run filter.
+// dirDone(…, d, runOnly, E): every stale entry that os.ReadDir(d) returns has its path in the set E.
+//@ specfun staleF(rn Bool, rd Array<Str,Bool>, sn Bool, sd Array<Str,Bool>, d Str, e Ref, runOnly Str) Bool = !entIsDir(e) && contains(entName(e), ".snap")
+//@      && !(rn && rd[joinPath(d, entName(e))]) && !(sn && sd[joinPath(d, entName(e))]) && !fileSkipSpec(d, entName(e), runOnly)
+//@ specfun dirDone(rn Bool, rd Array<Str,Bool>, sn Bool, sd Array<Str,Bool>, d Str, runOnly Str, E Array<Str,Bool>) Bool
+//@ specfun dirDoneDef(rn Bool, rd Array<Str,Bool>, sn Bool, sd Array<Str,Bool>, d Str, runOnly Str, E Array<Str,Bool>) Bool = forall k in 0..len(dirList(d)):
+//@      staleF(rn, rd, sn, sd, d, dirList(d)[k], runOnly) ==> E[joinPath(d, entName(dirList(d)[k]))]
+//@ axiom dirDone_def: forall rn Bool, rd Array<Str,Bool>, sn Bool, sd Array<Str,Bool>, d Str, runOnly Str, E Array<Str,Bool> {dirDone(rn, rd, sn, sd, d, runOnly, E)}:
+//@      dirDone(rn, rd, sn, sd, d, runOnly, E) == dirDoneDef(rn, rd, sn, sd, d, runOnly, E)
+//@ lemma dirDone_store @C09: forall rn Bool, rd Array<Str,Bool>, sn Bool, sd Array<Str,Bool>, d Str, runOnly Str, E Array<Str,Bool>, y Str {dirDone(rn, rd, sn, sd, d, runOnly, store(E, y, true))}:
+//@      dirDone(rn, rd, sn, sd, d, runOnly, E) ==> dirDone(rn, rd, sn, sd, d, runOnly, store(E, y, true))
 
 //@ func examineFiles(registry, registeredStandaloneTests, runOnly, shouldUpdate) returns (obsolete, used)
 //@   mode ctl
+//@   option slice-elems
 //@   requires quiescent
 //@   assigns fsx, fswrites, stdout, alloc
 //@   let protected = forall p Str {fsx[p]}: (has(registry, p) || has(registeredStandaloneTests, p) || !shouldUpdate || !contains(baseOf(p), ".snap")) ==> fsx[p] == old(fsx)[p]
@@ -1506,14 +1524,20 @@ package snaps
 //@   ensures [report_only] !shouldUpdate ==> fsx == old(fsx) && fswrites == old(fswrites)
 //@   ensures [obsolete_sound] forall k in 0..len(obsolete): !has(registry, obsolete[k]) && !has(registeredStandaloneTests, obsolete[k])
 //@   ensures [used_sound] forall k in 0..len(used): has(registry, used[k]) && contains(baseOf(used[k]), ".snap")
+//@   ensures [files_reported] forall p Str {dirOf(p)}: has(registry, p) || has(registeredStandaloneTests, p) ==> dirDone(registry != nil, dom(registry), registeredStandaloneTests != nil, dom(registeredStandaloneTests), dirOf(p), runOnly, elems(obsolete))
 //@   let inv = protected && (!shouldUpdate ==> fsx == old(fsx) && fswrites == old(fswrites))
 //@       && (forall k in 0..len(obsolete): !has(registry, obsolete[k]) && !has(registeredStandaloneTests, obsolete[k])) && (forall k in 0..len(used): has(registry, used[k]) && contains(baseOf(used[k]), ".snap"))
 //@       && (forall r0 Ref: old(alloc)[r0] ==> domheap("map[string]struct{}")[r0] == old(domheap("map[string]struct{}"))[r0] && valheap("map[string]struct{}")[r0] == old(valheap("map[string]struct{}"))[r0])
 //@       && uniqueDirs != nil && !old(alloc)[uniqueDirs] && (registry != nil ==> old(alloc)[registry]) && (registeredStandaloneTests != nil ==> old(alloc)[registeredStandaloneTests])
 //@   loop 1 invariant inv
+//@   loop 1 invariant [dirs] forall p Str {dirOf(p)}: $visited[p] ==> has(uniqueDirs, dirOf(p))
 //@   loop 2 invariant inv
+//@   loop 2 invariant [dirs] (forall p Str {dirOf(p)}: has(registry, p) ==> has(uniqueDirs, dirOf(p))) && (forall p Str {dirOf(p)}: $visited[p] ==> has(uniqueDirs, dirOf(p)))
 //@   loop 3 invariant inv
+//@   loop 3 invariant [done] forall d Str {$visited[d]}: $visited[d] ==> dirDone(registry != nil, dom(registry), registeredStandaloneTests != nil, dom(registeredStandaloneTests), d, runOnly, elems(obsolete))
 //@   loop 3.1 invariant inv
+//@   loop 3.1 invariant [done] forall d Str {$visited_3[d]}: $visited_3[d] ==> dirDone(registry != nil, dom(registry), registeredStandaloneTests != nil, dom(registeredStandaloneTests), d, runOnly, elems(obsolete))
+//@   loop 3.1 invariant [cur] dirContents == dirList(dir) && 0 <= $idx && (forall k in 0..$idx: staleF(registry != nil, dom(registry), registeredStandaloneTests != nil, dom(registeredStandaloneTests), dir, dirContents[k], runOnly) ==> elems(obsolete)[joinPath(dir, entName(dirContents[k]))])
 //@
 //@ func set.Has(s, i) returns (r)
 //@   mode ctl
